@@ -35,7 +35,7 @@ def gen_cases(rng, tier):
     per = 60 if tier == "thorough" else 40
     cases = []
     ctxs = [_qty.predefined_ctx() for _ in range(n_pre)] + \
-           [_qty.user_ctx(rng, rng.randint(8, 18)) for _ in range(n_user)]
+           [_qty.user_ctx(rng, rng.randint(8, 18), undefined_units=.3) for _ in range(n_user)]
     for ctx in ctxs:
         ops = []
         lin = ctx.linear_units()
@@ -54,6 +54,18 @@ def gen_cases(rng, tier):
             else:
                 other = rng.choice(list(ctx.units))
                 ops.append(["q_conv", f"{a}@{u}", other, MODE])
+        # units WITHOUT scale (types without reference unit, units declared
+        # without definition): converting to a unit of ANOTHER type is
+        # IncompatibleUnitsError all the same (to another unit of their own
+        # type: UnitConversionError)
+        for z in [x for x in ctx.units if ctx.units[x]["scale"] is None][:4]:
+            others = [x for x in ctx.units if ctx.units[x]["cls"] != ctx.units[z]["cls"]]
+            if others:
+                ops.append(["q_conv", f"3/2@{z}", rng.choice(others), MODE])
+                ops.append(["q_conv", f"3/2@{rng.choice(others)}", z, MODE])
+            own = [x for x in ctx.units if ctx.units[x]["cls"] == ctx.units[z]["cls"] and x != z]
+            if own:
+                ops.append(["q_conv", f"3/2@{z}", rng.choice(own), MODE])
         # amounts with more significant digits than any default precision,
         # held as either kind of Decimal or as Fraction: no rounding anywhere
         for kind in ("P:", "", "F:", "P:"):
@@ -110,8 +122,10 @@ def oracle(case, impl):
             v = o[2]
             if ctx.units[v]["cls"] != cu:
                 exp = "err IncompatibleUnitsError"
-            elif ctx.units[v]["scale"] is None:
-                continue
+            elif ctx.units[v]["scale"] is None or su is None:
+                if u == v or ctx.kind != "user":
+                    continue
+                exp = "err UnitConversionError"      # no converter in user contexts
             else:
                 exp = "ok " + ctx.qty(ctx.grid(v, x * su / ctx.units[v]["scale"], MODE), v)
             if out != exp:
